@@ -182,3 +182,150 @@ register(Contract(KT + "Term._reduce_items", reduce_items_spec,
                   summarize=False,
                   notes="n_items in {1, 2} (the fast paths); the general path "
                         "is bounded"))
+
+
+# ---- _reciprocal(items): every exponent negated, elements and order kept ---------
+def _same_elem(a: V, b: V):
+    if isinstance(a, VObj) and isinstance(b, VObj):
+        return a.t == b.t
+    if is_num(a) and is_num(b):
+        cl = [num_value(a) == num_value(b)]
+        if isinstance(a, VRat) and isinstance(b, VRat):
+            cl.append(a.tag == b.tag)
+        elif isinstance(a, VRat) != isinstance(b, VRat):
+            return FALSE
+        return z3.And(*cl)
+    return FALSE
+
+
+def reciprocal_spec(ctx: Ctx):
+    pairs = _pairs(ctx.a("items"))
+    h = ctx.pre
+    req = []
+    for elem, e in pairs:
+        if isinstance(elem, VObj):
+            req.append(wf_unit(h, elem.t))
+            req.append(wf_unit_den(h, elem.t))
+        else:
+            req.append(num_value(elem) != 0)
+    num, vec = items_den(h, pairs, ctx.path)
+    from .term import vec_facts
+    for elem, e in pairs:
+        if isinstance(elem, VObj):
+            n, v = unit_den(h, elem.t)
+            ctx.axiom(z3.Implies(n != 0, z3.And(*S.qpow_facts(n, e))),
+                      "A3: x ** -n * x ** n == 1, ground instance")
+            ctx.axiom(M.vscale(v, -e) ==
+                      M.vscale(M.vscale(v, e), z3.IntVal(-1)),
+                      "A3: (-n) v == -(n v), ground instance")
+            ctx.axiom(vec_facts(M.vscale(v, e)))
+        else:
+            ctx.axiom(z3.And(*S.qpow_facts(num_value(elem), e)),
+                      "A3: x ** -n * x ** n == 1, ground instance")
+
+    def structural(c, o):
+        its = result_items(o)
+        if its is None or len(its) != len(pairs):
+            return FALSE
+        return z3.And(*[z3.And(_same_elem(a, b), f == -e)
+                        for (a, e), (b, f) in zip(pairs, its)])
+
+    def inverse(c, o):
+        its = result_items(o)
+        if its is None or len(its) > 1:
+            # the product law for several items follows from the structural
+            # clause item by item; it is stated for one item, where the
+            # group inverse is a single ground fact
+            return TRUE if its is not None else FALSE
+        n2, v2 = items_den(o.heap, its, c.path)
+        return z3.And(n2 * num == 1, vec_add(v2, vec).eq(M.ZERO_VEC)
+                      if vec.eq(M.ZERO_VEC) else M.vadd(v2, vec) == M.ZERO_VEC)
+    return req, [Case("reciprocal", TRUE, ensures=[
+        ("same-elements-same-order-exponents-negated", structural),
+        ("single-item-denotes-the-group-inverse", inverse),
+    ], props=["C07"])]
+
+
+def _seq_scenarios(fn_arg="items"):
+    out = []
+    for kinds in (("int",), ("Decimal",), ("Fraction",), ("unit",),
+                  ("int", "unit"), ("unit", "unit"), ("Decimal", "unit", "unit"),
+                  ("unit", "Fraction", "unit")):
+        out.append(Scenario("items-" + "-".join(kinds), lambda I, kinds=kinds: {
+            fn_arg: _mk_items(kinds, I)}))
+    return out
+
+
+register(Contract(KT + "_reciprocal", reciprocal_spec, _seq_scenarios,
+                  props=["C07"], summarize=False,
+                  notes="item tuples of length 1..3, units and every exact "
+                        "numeric kind as elements"))
+
+
+# ---- _filter_items(items): drops exactly the items equivalent to 1 ---------------
+def filter_items_spec(ctx: Ctx):
+    pairs = _pairs(ctx.a("items"))
+    h = ctx.pre
+    req = []
+    for elem, e in pairs:
+        if isinstance(elem, VObj):
+            req.append(wf_unit(h, elem.t))
+            req.append(wf_unit_den(h, elem.t))
+        else:
+            req.append(z3.Or(num_value(elem) != 0, e >= 0))
+    num, vec = items_den(h, pairs, ctx.path)
+    for elem, e in pairs:
+        if is_num(elem):
+            ctx.axiom(z3.And(*S.qpow_facts(num_value(elem), e)),
+                      "A3: x ** 0 == 1, 1 ** n == 1, ground instances")
+        else:
+            ctx.axiom(M.vscale(unit_den(h, elem.t)[1], z3.IntVal(0)) ==
+                      M.ZERO_VEC, "A3: 0 v == 0, ground instance")
+            ctx.axiom(z3.And(*S.qpow_facts(unit_den(h, elem.t)[0], e)))
+            sv = M.vscale(unit_den(h, elem.t)[1], e)
+            ctx.axiom(z3.And(M.vadd(M.ZERO_VEC, sv) == sv,
+                             M.vadd(sv, M.ZERO_VEC) == sv,
+                             M.vadd(M.ZERO_VEC, M.ZERO_VEC) == M.ZERO_VEC),
+                      "A3: identity of the group of dimension vectors")
+
+    def keep(elem, e):
+        if is_num(elem):
+            return z3.And(e != 0, num_value(elem) != 1)
+        return e != 0
+
+    def exact_subsequence(c, o):
+        """the result is the subsequence of the kept items: decided per
+        combination of kept flags"""
+        its = result_items(o)
+        if its is None:
+            return FALSE
+        cl = []
+        import itertools
+        for flags in itertools.product((False, True), repeat=len(pairs)):
+            guard = z3.And(*[keep(el, e) if f else z3.Not(keep(el, e))
+                             for f, (el, e) in zip(flags, pairs)])
+            kept = [p for f, p in zip(flags, pairs) if f]
+            if len(kept) != len(its):
+                cl.append(z3.Not(guard))
+            else:
+                cl.append(z3.Implies(guard, z3.And(*[
+                    z3.And(_same_elem(a, b), e == f)
+                    for (a, e), (b, f) in zip(kept, its)])))
+        return z3.And(*cl)
+
+    def den_preserved(c, o):
+        its = result_items(o)
+        if its is None:
+            return FALSE
+        n2, v2 = items_den(o.heap, its, c.path)
+        return z3.And(n2 == num, v2 == vec)
+    return req, [Case("filter", TRUE, ensures=[
+        ("exactly-the-items-not-equivalent-to-1-in-order", exact_subsequence),
+        ("denotation-preserved", den_preserved),
+    ], props=["C07"])]
+
+
+register(Contract(KT + "_filter_items", filter_items_spec, _seq_scenarios,
+                  props=["C07"], summarize=False,
+                  notes="item tuples of length 1..3, units and every exact "
+                        "numeric kind as elements"))
